@@ -210,6 +210,16 @@ impl<'a> Tr<'a> {
                     lines.push(format!("let {} := {}", lean_ident(&c.ident.to_string()), o.term));
                     self.declare(&c.ident.to_string(), t);
                 }
+                Stmt::Item(syn::Item::Type(t)) => {
+                    // `type A<T> = T;` local to the block: the identity alias, `A::<X>` means exactly `X`
+                    // (any other local alias stays unknown, so a use of it is still a translation error)
+                    let params: Vec<_> = t.generics.params.iter().collect();
+                    if let ([syn::GenericParam::Type(tp)], syn::Type::Path(rhs)) = (params.as_slice(), &*t.ty) {
+                        if tp.bounds.is_empty() && rhs.qself.is_none() && rhs.path.is_ident(&tp.ident) {
+                            self.identity_aliases.push(t.ident.to_string());
+                        }
+                    }
+                }
                 Stmt::Item(_) => {}
                 Stmt::Macro(m) => {
                     let name = path_segs(&m.mac.path).last().cloned().unwrap_or_default();
